@@ -1,5 +1,6 @@
 import Perp.Model.VammRun
 import Perp.Spec.Vamm
+import Perp.Spec.Ghost
 import Driver.Parse
 
 /-!
@@ -143,26 +144,14 @@ def handleVOp (acc : Acc) (h : VHist) (kv : KV) (line : String) : Acc × VHist :
   -- a rejected call / a query changes nothing
   let acc := if (isExec && ok) || sameV pre post then acc
     else reportMany acc "SPECFAIL" ["C08", "C10"] s!"vamm-state-changed-without-accepted-call:{diffV pre post}" line
-  -- the model's step from the observed pre-state with the GHOST snapshots in place of the stored ones
-  let preG : V := { pre with st := { pre.st with snaps := h.ghost } }
-  let ghost' : List Snapshot :=
-    if !ok then h.ghost else
+  -- the ghost snapshot history (`Spec/Ghost.lean`; sound on the model: `Props/GhostSound.lean`)
+  let gop : Spec.Ghost.GOp :=
     match op with
-    | "swapin" => (match Vamm.swapInput preG env snd (dirOf (kv.nat "dir")) (kv.nat "amt") (kv.nat "lim") (kv.bool "cgo") with
-        | .ok (mv, _) => mv.st.snaps | .error _ => post.st.snaps)
-    | "swapout" => (match Vamm.swapOutput preG env snd (dirOf (kv.nat "dir")) (kv.nat "amt") (kv.nat "lim") with
-        | .ok (mv, _) => mv.st.snaps | .error _ => post.st.snaps)
-    | _ => if post.st.snaps == pre.st.snaps then h.ghost else post.st.snaps
-  let ghostBand (acc : Acc) (cgo : Bool) : Acc :=
-    if pre.cfg.fluct == 0 || !(op == "swapin" || op == "swapout") then acc else
-    match Spec.C15.band D pre.cfg.fluct h.ghost env.height with
-    | some bd =>
-      let acc := if ok && !(Spec.C15.inside D bd pre.st.quote pre.st.base)
-        then acc.report "SPECFAIL" "C15" "swap-accepted-outside-band(band-from-the-history's-snapshots)" line else acc
-      if ok && op == "swapin" && !cgo && !(Spec.C15.inside D bd post.st.quote post.st.base)
-        then acc.report "SPECFAIL" "C15" "no-go-over-swap-left-band(band-from-the-history's-snapshots)" line else acc
-    | none => acc
-  let acc := ghostBand acc (kv.bool "cgo")
+    | "swapin" => .swapIn snd (dirOf (kv.nat "dir")) (kv.nat "amt") (kv.nat "lim") (kv.bool "cgo")
+    | "swapout" => .swapOut snd (dirOf (kv.nat "dir")) (kv.nat "amt") (kv.nat "lim")
+    | _ => .other
+  let ghost' : List Snapshot := Spec.Ghost.next h.ghost pre post env ok gop
+  let acc := (Spec.Ghost.bandCheck D h.ghost pre post env ok gop).foldl (fun a t => a.report "SPECFAIL" "C15" t line) acc
   let next : VHist := { h with last := post, lastEnv := env, seen := if h.seen.length < 64 then post.st :: h.seen else h.seen, ghost := ghost' }
   let acc :=
     match op with
